@@ -293,6 +293,10 @@ func (b *kvBox[K, V]) enumAdapter() *enumAdapter {
 	}
 	var cod []kv
 	ku, vu := b.sys.KU, b.sys.VU
+	if len(vu) == 0 {
+		vu = []V{b.sys.Fresh(1001), b.sys.Fresh(1002)}
+	}
+	lastV := vu[len(vu)-1]
 	if len(ku) > 3 {
 		ku = ku[:3]
 	}
@@ -318,7 +322,7 @@ func (b *kvBox[K, V]) enumAdapter() *enumAdapter {
 					rb.refPut(e.A.(K), e.B.(V))
 				}
 				return rb.CheckState()
-			}, r.obj, func() { r.put(b.sys.KU[len(b.sys.KU)-1], b.sys.VU[len(b.sys.VU)-1]); r.remove(b.sys.KU[0]); r.clear() }
+			}, r.obj, func() { r.put(b.sys.KU[len(b.sys.KU)-1], lastV); r.remove(b.sys.KU[0]); r.clear() }
 		},
 		mapF: func(cb func(a, b any) int) (func([]int) *Viol, any, func()) {
 			r := b.a.mapF(func(k K, v V) (K, V) { c := cod[cb(k, v)]; return c.k, c.v })
@@ -328,7 +332,7 @@ func (b *kvBox[K, V]) enumAdapter() *enumAdapter {
 					rb.refPut(cod[c].k, cod[c].v)
 				}
 				return rb.CheckState()
-			}, r.obj, func() { r.put(b.sys.KU[len(b.sys.KU)-1], b.sys.VU[len(b.sys.VU)-1]); r.remove(b.sys.KU[0]); r.clear() }
+			}, r.obj, func() { r.put(b.sys.KU[len(b.sys.KU)-1], lastV); r.remove(b.sys.KU[0]); r.clear() }
 		}}
 }
 
